@@ -99,8 +99,8 @@ type dialWaitEnvelope struct {
 	baseWaitEnvelope
 
 	Phone            string `json:"phone" validate:"required"`
-	DialLimitSeconds int    `json:"dial_limit_seconds,omitempty"`
-	CallLimitSeconds int    `json:"call_limit_seconds,omitempty"`
+	DialLimitSeconds int    `json:"dial_limit_seconds"`
+	CallLimitSeconds int    `json:"call_limit_seconds"`
 }
 
 func readDialWait(data json.RawMessage) (flows.Wait, error) {
